@@ -798,10 +798,6 @@ fn length_scaled_threshold(run: &mut Run) -> u64 {
                                 break;
                             }
                         }
-                        // (the draw has 24 bits: the threshold is a multiple of 2^40; stop there)
-                        if hi - lo <= 1 << 36 {
-                            break;
-                        }
                     }
                     match broken {
                         Some(b) => Some(("result", b)),
